@@ -411,4 +411,41 @@ theorem predictT_at_node (st : LState) (x : List Q) (hd : st.grids.length = x.le
   rw [lagCoef_at_node st x hd hgood jr.1 _ (List.of_mem_zip hjr).1 hmem hx]
   by_cases h : jr.1 = (prodIdx (st.grids.map List.length))[n] <;> simp [h]
 
+
+/-- **the prediction of one term is linear in its data**: if every data entry of `rows` is `a·rows₁ + b·rows₂` then so is
+    every predicted output -/
+theorem tensorSum_lincomb (table : List (List Q)) (sizes : List ℕ) (rows r1 r2 : List (List Q)) (a b : Q) (o : ℕ)
+    (ho : o < (rows.head?.map List.length).getD 0) (ho1 : o < (r1.head?.map List.length).getD 0)
+    (ho2 : o < (r2.head?.map List.length).getD 0)
+    (hl1 : r1.length = rows.length) (hl2 : r2.length = rows.length)
+    (h : ∀ n, n < rows.length → (rows.getD n []).getD o 0 = a * (r1.getD n []).getD o 0 + b * (r2.getD n []).getD o 0) :
+    (tensorSum table sizes rows).getD o 0 =
+      a * (tensorSum table sizes r1).getD o 0 + b * (tensorSum table sizes r2).getD o 0 := by
+  rw [tensorSum_getD _ _ rows o ho, tensorSum_getD _ _ r1 o ho1, tensorSum_getD _ _ r2 o ho2]
+  -- a sum over `zip L R` as a sum over positions
+  have key : ∀ (R : List (List Q)), (((prodIdx sizes).zip R).map fun jr => coefOf table jr.1 * jr.2.getD o 0) =
+      (List.range (min (prodIdx sizes).length R.length)).map fun n =>
+        coefOf table ((prodIdx sizes).getD n []) * (R.getD n []).getD o 0 := by
+    intro R
+    apply List.ext_getElem
+    · simp
+    · intro n h1 h2
+      have hn : n < min (prodIdx sizes).length R.length := by simpa using h2
+      have hnL : n < (prodIdx sizes).length := by omega
+      have hnR : n < R.length := by omega
+      simp [List.getD_eq_getElem?_getD, List.getElem?_eq_getElem hnL, List.getElem?_eq_getElem hnR]
+  rw [key rows, key r1, key r2, hl1, hl2, ← sum_map_mul_left, ← sum_map_mul_left]
+  have hadd : ∀ (L : List ℕ) (f g : ℕ → Q), (L.map fun n => f n + g n).sum = (L.map f).sum + (L.map g).sum := by
+    intro L f g
+    induction L with
+    | nil => simp
+    | cons x L ih => simp only [List.map_cons, List.sum_cons, ih]; ring
+  rw [← hadd]
+  congr 1
+  apply List.map_congr_left
+  intro n hn
+  rw [List.mem_range] at hn
+  rw [h n (by omega)]
+  ring
+
 end Amisc.TD
